@@ -32,7 +32,7 @@ Inc(f, t) == Put(f, t, Cnt(f, t) + 1)
 ev == Rec[l]
 
 IsDg == ev.name \in {"dg_block", "dg_cycle", "dg_unblock_key", "dg_unblock", "dg_wake", "dg_transfer",
-                      "dg_undo_transfer", "dg_unblock_transferred"}
+                      "dg_undo_transfer", "dg_unblock_transferred", "dg_edges"}
 
 \* obligations that must hold before any event other than the expected unblocks is processed
 \* (only evaluated at events that need the dependency-graph lock: events made under a shard lock alone can
@@ -111,6 +111,16 @@ OnHkB(Gb) ==
             /\ Check("C19", newT = cur \/ DependsOn(Gb, newT, cur), <<"lock transferred to a query whose thread does not wait for this one", k, ev.k2, cur, newT>>)
             /\ G' = G2
             /\ aux' = [aux EXCEPT !.cands = cands, !.tt = changed, !.transfers = aux.transfers + 1]
+      [] nm = "dg_edges" ->
+            \* state projection logged at the end of transfer_lock (after unblock_transfer_target and
+            \* update_transferred_edges): every thread's wait-for edge equals the model's
+            LET impl == {<<ev.d[i][1], ev.d[i][2]>> : i \in 1..Len(ev.d)}
+                model == {<<th, Gb.edges[th].to>> : th \in DOMAIN Gb.edges}
+            IN
+            /\ Settled
+            /\ Check("C19", impl = model, <<"wait-for edges after a lock transfer differ from the protocol model (stale blocked-on thread)", k, ev.k2, impl, model>>)
+            /\ G' = Gb
+            /\ aux' = [aux EXCEPT !.cands = {}, !.tt = FALSE]
       [] nm = "dg_undo_transfer" ->
             /\ Settled
             /\ G' = UndoTransfer(Gb, k)
